@@ -169,10 +169,12 @@ func checkC06(r *core.Run) {
 			switch {
 			case isDao(callee, "QueryTCCFenceDO"):
 				return []flow.Tag{"query"}
-			case insR.Hits(callee):
-				return []flow.Tag{"write:" + statusArg(call)}
-			case updR.Hits(callee):
-				return []flow.Tag{"write:" + statusArg(call)}
+			case insR.Hits(callee), updR.Hits(callee):
+				// the write step is the call that names the status it writes; a helper of the handler that
+				// merely leads to one (no status constant among its arguments) is analysed in the caller's context
+				if st := statusArg(call); st != "" || isDao(callee, "InsertTCCFenceDO") || isDao(callee, "UpdateTCCFenceDO") {
+					return []flow.Tag{"write:" + st}
+				}
 			}
 			return nil
 		}}
